@@ -283,6 +283,10 @@ function exprForms() {
     ['plus-right-group', M.bin('+', x, M.grp(M.bin('+', y, M.lit('1'))))],
     // a call whose callee is itself a data value (replacing the function alone must re-evaluate the call)
     ['call-data-function', M.call(id('f'), [x])],
+    // two fields (and two members) of which one name is a prefix of the other, read in one expression in both orders
+    ['prefix-named-fields', M.bin('+', M.bin('+', x, M.lit("'/'")), id('xs'))],
+    ['prefix-named-fields-reversed', M.bin('+', M.bin('+', id('xs'), M.lit("'/'")), x)],
+    ['prefix-named-members', M.bin('+', M.bin('+', M.mem(id('aa'), 'b'), M.lit("'/'")), M.mem(id('aa'), 'bb'))],
   ]
 }
 /** binding positions: (expr) -> nodes */
@@ -442,6 +446,8 @@ const VALUES = Object.assign(Object.create(null), {
   obj: [undefined, {}, { a: { id: 1, v: 'p' }, b: { id: 2, v: 'q' } }, { b: { id: 2, v: 'q' }, a: { id: 1, v: 'p' } }, { k: 1 }],
   n: ['t', 'u', undefined, '', 'b'],
   b: [undefined, 'BB'],
+  xs: [undefined, 'S'],
+  aa: [undefined, { b: '1', bb: '2' }, { b: '1' }],
 })
 
 function collectNames(obj, out = new Set()) {
